@@ -10,6 +10,7 @@ import (
 	"net/http/httptest"
 	"os"
 	"path/filepath"
+	"strconv"
 	"strings"
 	"sync"
 
@@ -25,7 +26,7 @@ func (C11) Rule() string {
 	return "lines `path <hex>` (hook-exported path parsers vs the model's recognisers: grammar over segments, '.', '..', empty segments, %2e/%2f/%5c, backslashes, absolute-looking names, names that look like /1/2/3.mvt, numerals at the 255/256/2^32 boundaries, out-of-class bytes), `local <hex key>` (the real file bucket over a fixture tree with marker archives outside the served directory — incl. a sibling whose name has the served directory's name as prefix — which file is opened) and `srvkey <hex path>` (real Server.Get and a raw request line to a real HTTP listener over a recording file bucket: every bucket key vs the model; no response may contain an outside marker); non-trivial = path with at least 3 segments; distinct by hash of the line"
 }
 
-var c11Seg = []string{"a", "sub", "deep", "b", "..", ".", "", "%2e%2e", "%2e", "..%2f", "%2f", "%5c", "\\", "outside", "srv-evil", "srv", "0", "1", "255", "256", "4294967295", "4294967296", "007", "metadata", "a.json", "x.mvt", "0.mvt", "1/2/3.mvt", "we ird", "ü", "a*b'(c)", "A-Z_!", "{", "~", "`"}
+var c11Seg = []string{"a", "sub", "deep", "b", "..", ".", "", "%2e%2e", "%2e", "..%2f", "%2f", "%5c", "\\", "outside", "srv-evil", "srv", "0", "1", "255", "256", "4294967295", "4294967296", "007", "010", "08", "0x10", "0X1f", "0b11", "0o17", "1_0", "+1", "-0", "00", "1e2", "٣", "metadata", "a.json", "x.mvt", "0.mvt", "1/2/3.mvt", "we ird", "ü", "a*b'(c)", "A-Z_!", "{", "~", "`"}
 
 func randPath(r *core.Rng) string {
 	n := 1 + r.Intn(7)
@@ -42,7 +43,11 @@ func randPath(r *core.Rng) string {
 	case 2:
 		p += ".json"
 	case 3:
-		p += fmt.Sprintf("/%s/%s/%s.mvt", c11Seg[16+r.Intn(7)], c11Seg[16+r.Intn(7)], c11Seg[16+r.Intn(7)])
+		p += fmt.Sprintf("/%s/%s/%s.mvt", c11Seg[16+r.Intn(20)], c11Seg[16+r.Intn(20)], c11Seg[16+r.Intn(20)])
+	}
+	if r.Chance(1, 15) {
+		pre := []string{"./", "sub/../", "x/../", "%2e/", "sub/%2e%2e/"}[r.Intn(5)]
+		p = "/" + strings.Repeat(pre, 20+r.Intn(30)) + []string{"../outside", "%2e%2e/outside", "../srv-evil/x", "a"}[r.Intn(4)] + []string{"/metadata", ".json", "/0/0/0.mvt"}[r.Intn(3)]
 	}
 	if r.Chance(1, 20) {
 		p = p[1:]
@@ -57,6 +62,11 @@ func randKey(r *core.Rng) string {
 		segs = append(segs, []string{"a.pmtiles", "sub", "deep", "b.pmtiles", "..", ".", "", "outside.pmtiles", "srv-evil", "x.pmtiles", "we ird.pmtiles", "srv"}[r.Intn(12)])
 	}
 	k := strings.Join(segs, "/")
+	if r.Chance(1, 12) {
+		// a long run of harmless segments before the climb (depth counters and bounded splits lose track here)
+		pre := []string{"./", "sub/../", "x/../", "sub/deep/../../"}[r.Intn(4)]
+		k = strings.Repeat(pre, 20+r.Intn(30)) + []string{"../outside.pmtiles", "../srv-evil/x.pmtiles", "a.pmtiles", "../../" + k}[r.Intn(4)]
+	}
 	if r.Chance(1, 8) {
 		k = "/" + k
 	}
@@ -124,7 +134,9 @@ func markerArchive(marker string) []byte {
 }
 
 func c11Setup() {
-	c11Root = filepath.Join(Scratch(), "c11")
+	// the path of the served directory holds characters that mean something in URLs ('#', '?', '%xx', space):
+	// the file:// bucket URL must still open exactly this directory
+	c11Root = filepath.Join(Scratch(), "c11 #1%41?x=y")
 	c11Served = filepath.Join(c11Root, "srv")
 	os.MkdirAll(filepath.Join(c11Served, "sub", "deep"), 0o755)
 	os.MkdirAll(filepath.Join(c11Root, "srv-evil"), 0o755)
@@ -136,7 +148,11 @@ func c11Setup() {
 	w("outside.pmtiles", "OUTSIDE:outside.pmtiles")
 	w("srv-evil/x.pmtiles", "OUTSIDE:srv-evil/x.pmtiles")
 	w("srv-evil/a.pmtiles", "OUTSIDE:srv-evil/a.pmtiles")
-	c11Rec = &recBucket{inner: pmtiles.NewFileBucket(c11Served), keys: map[string][]string{}}
+	inner, err := pmtiles.OpenBucket(context.Background(), "file://"+c11Served, "")
+	if err != nil {
+		inner = pmtiles.NewFileBucket(filepath.Join(c11Root, "cannot-open-bucket"))
+	}
+	c11Rec = &recBucket{inner: inner, keys: map[string][]string{}}
 	c11Server, _ = pmtiles.NewServerWithBucket(c11Rec, "", discardLogger, 1, "http://public")
 	c11Server.Start()
 	mux := http.NewServeMux()
@@ -171,7 +187,10 @@ func (C11) RunGo(line string) string {
 		}
 		return "none"
 	case "local":
-		b := pmtiles.NewFileBucket(c11Served)
+		b, err := pmtiles.OpenBucket(context.Background(), "file://"+c11Served, "")
+		if err != nil {
+			return "open-bucket-failed"
+		}
 		r, _, _, err := b.NewRangeReaderEtag(context.Background(), p, 0, 1<<20, "")
 		if err != nil {
 			if strings.Contains(err.Error(), "invalid key") {
@@ -244,6 +263,22 @@ func (C11) Oracle(line, goOut string) string {
 	t := strings.Fields(line)
 	raw, _ := unhex(t[1])
 	p := string(raw)
+	if t[0] == "path" && strings.HasPrefix(goOut, "tile ") {
+		// the coordinates are the last three path segments read as plain decimal numbers
+		f := strings.Fields(goOut)
+		segs := strings.Split(p, "/")
+		if len(f) == 6 && len(segs) >= 4 {
+			last := segs[len(segs)-1]
+			if i := strings.LastIndex(last, "."); i > 0 {
+				for k, sv := range []string{segs[len(segs)-3], segs[len(segs)-2], last[:i]} {
+					want, err := strconv.ParseUint(sv, 10, 64)
+					if err == nil && strconv.FormatUint(want, 10) != f[2+k] {
+						return fmt.Sprintf("path %q: coordinate %q was read as %s", p, sv, f[2+k])
+					}
+				}
+			}
+		}
+	}
 	if t[0] == "srvkey" {
 		// the same path as a raw request line (only when it can be put on a request line)
 		if strings.HasPrefix(p, "/") && !strings.ContainsAny(p, " \r\n\x00") {
